@@ -734,13 +734,14 @@ pub fn c05_strategy() -> BoxedStrategy<RespCase> {
     .prop_map(|((len, status, body_seed, declared, plan), (threshold, version, head, te), headers, upgrade)| RespCase {
         plan,
         wmode: 0,
-        ctor: Ctor::New,
+        ctor: if body_seed % 7 == 3 { Ctor::FromData } else { Ctor::New },
         status,
         headers,
         body_len: len,
         body_seed,
         declared,
-        with_data: false,
+        // (now and then the body is replaced through with_data, with or without a declared length)
+        with_data: body_seed % 7 >= 3 && body_seed % 7 <= 4,
         threshold,
         version,
         head,
